@@ -5,6 +5,7 @@ imports or runs it.  The repository root is /repo unless VERIF_REPO is set
 (used by the self-validation harness to point at a scratch copy).
 """
 import ast
+import copy
 import hashlib
 import os
 import symtable
@@ -55,14 +56,47 @@ class Module:
         if os.environ.get("VERIF_NO_CANON") != "1":
             from . import canon
             self.canon_stats = canon.canonicalise(self.tree, self.name)
-            if os.environ.get("VERIF_NO_NORMALISE") != "1":
-                from . import normalise
-                self.normalisation = normalise.normalise(self.tree, rel, self.name, self.digest)
+        self._reindex()
+
+    def _reindex(self):
         self.funcs = {}      # qname -> Func
         self.classes = {}    # name -> ClassDef
         self.parents = {}    # id(node) -> parent node
         self.func_of = {}    # id(node) -> innermost enclosing Func
         self._index()
+
+    def normalise(self, foreign_constants=None):
+        """equivalence-guarded normalisation toward the reviewed copy (sa/normalise.py); constants that this module imports from another
+        module of the package and that are new there are made local first, so that they can be inlined like its own"""
+        if os.environ.get("VERIF_NO_CANON") == "1" or os.environ.get("VERIF_NO_NORMALISE") == "1":
+            return
+        from . import normalise
+        extra = ""
+        if foreign_constants:
+            new = []
+            keep_body = []
+            for st in self.tree.body:
+                if isinstance(st, ast.ImportFrom) and st.module and st.module.rsplit(".", 1)[-1] in foreign_constants:
+                    src = foreign_constants[st.module.rsplit(".", 1)[-1]]
+                    rest = []
+                    for al in st.names:
+                        if al.name in src and al.asname in (None, al.name):
+                            new.append(ast.Assign([ast.Name(al.name, ast.Store())], copy.deepcopy(src[al.name])))
+                        else:
+                            rest.append(al)
+                    if rest:
+                        st.names = rest
+                        keep_body.append(st)
+                    continue
+                keep_body.append(st)
+            if new:
+                for n in new:
+                    ast.fix_missing_locations(n)
+                self.tree.body = keep_body[:0] + new + keep_body
+                extra = "|" + ",".join(sorted(ast.unparse(n) for n in new))
+        import hashlib
+        self.normalisation = normalise.normalise(self.tree, self.rel, self.name, hashlib.sha256((self.digest + extra).encode()).hexdigest())
+        self._reindex()
 
     def _index(self):
         def walk(node, parent_func, cls, prefix):
@@ -127,6 +161,20 @@ class Repo:
                 if fn.endswith(".py"):
                     self._load(LINT + "/" + fn)
         self.consulted = set()
+        # second pass: normalise every module toward its reviewed copy; module-level constants that are new in one module may be imported by another
+        foreign = {}
+        try:
+            from . import normalise as _n
+            for m in self.modules.values():
+                ref = _n.reference_tree(m.rel, m.name)
+                if ref is not None:
+                    c = _n.new_module_constants(m.tree, ref)
+                    if c:
+                        foreign[m.name] = c
+        except Exception:
+            foreign = {}
+        for m in self.modules.values():
+            m.normalise({k: v for k, v in foreign.items() if k != m.name})
 
     def _load(self, rel):
         try:
